@@ -548,3 +548,28 @@ def near_limit_wire_programs(rng):
             ops = [("tlv", k, v) if not isinstance(k, str) else ("wp", ("prt", k, v)) for k, v in tl]
             out.append(((ctor, ops), tl))
     return out
+
+
+def reserve_past_limit_groups():
+    """Capacity reservations issued at every buffer size around and beyond the writer's limit
+    (65551 bytes), reachable with two ordinary writes under an explicit length: each group is the
+    program without reservations followed by the same program with `reserve_capacity(n)` before,
+    between and after the writes. A reservation has no effect on the output (C10) - in particular
+    it does not panic on arithmetic that assumes the buffer is within the limit. The second list
+    holds programs that write once more after the late reservation. No random choices."""
+    groups, singles = [], []
+    v4 = ("ipv4", bytes([1, 2, 3, 4]), bytes([5, 6, 7, 8]), 1, 2)
+    for ctor, ablock in ((("new", 0x21, 0x00), 0), (("with", 0x21, 1, v4), 12)):
+        for total in (65534, 65535, 65536, 65537, 66000, 70000):
+            a = 60000
+            b = total - ablock - a
+            w1, w2 = ("wp", ("sl", b"r" * a)), ("wp", ("sl", b"s" * b))
+            base = [("len", 12), w1, w2]
+            g = [(ctor, base)]
+            for n in (0, 1, 16, 65535, 70000):
+                g.append((ctor, base + [("res", n)]))
+                g.append((ctor, [("res", n)] + base + [("res", n)]))
+                g.append((ctor, [("len", 12), w1, ("res", n), w2]))
+                singles.append((ctor, base + [("res", n), ("wp", ("u8", 7))]))
+            groups.append(g)
+    return groups, singles
